@@ -198,6 +198,12 @@ class Folder:
             return FuncRef(val)  # type: ignore[arg-type]
         if kind == "const":
             m, expr = val  # type: ignore[misc]
+            if m is not mod:
+                # a constant imported from another module is the same object there (`UNDEFINED` is one sentinel
+                # whichever module names it): folded once, under the module that defines it
+                home = next((k for k, v in m.assigns.items() if v is expr), None)
+                if home is not None:
+                    return self.global_value(m, home)
             return self.eval(expr, Scope(self, m))
         if kind == "module":
             return val
